@@ -43,6 +43,13 @@ func (r *Recorder) add(e Event) {
 	r.mu.Unlock()
 }
 
+// Reset forgets the events recorded so far.
+func (r *Recorder) Reset() {
+	r.mu.Lock()
+	r.Events = nil
+	r.mu.Unlock()
+}
+
 func (r *Recorder) Snapshot() []Event {
 	r.mu.Lock()
 	defer r.mu.Unlock()
@@ -314,4 +321,58 @@ func settle(rec *Recorder) {
 			last, same = n, 0
 		}
 	}
+}
+
+// Live is one dawn.Project kept alive across builds, the way `dawn watch` works: every build is Reload() followed by
+// Run() on the same Project value, in this process. A change of the command-line flags opens a new Project.
+type Live struct {
+	proj *dawn.Project
+	rec  *Recorder
+	args string
+	// Reloads counts builds served by Reload() of the live project (as opposed to a fresh Load).
+	Reloads int
+}
+
+func (lv *Live) Build(req BuildReq) (res BuildRes) {
+	args := strings.Join(req.Args, "\x00")
+	if lv.proj == nil || lv.args != args {
+		lv.rec = &Recorder{}
+		proj, err := dawn.Load(req.Root, &dawn.LoadOptions{Args: req.Args, Events: lv.rec, Builtins: starlark.StringDict{"v": Module()}})
+		if err != nil {
+			res.LoadErr = err.Error()
+			res.Events = lv.rec.Snapshot()
+			lv.proj = nil
+			return
+		}
+		lv.proj, lv.args = proj, args
+	} else {
+		lv.rec.Reset()
+		if err := lv.proj.Reload(); err != nil {
+			res.LoadErr = "reload: " + err.Error()
+			res.Events = lv.rec.Snapshot()
+			lv.proj = nil
+			return
+		}
+		lv.Reloads++
+	}
+	defer func() { res.Events = lv.rec.Snapshot() }()
+	for _, t := range lv.proj.Targets() {
+		res.Targets = append(res.Targets, t.Label().String())
+	}
+	for _, f := range lv.proj.Flags() {
+		res.Flags = append(res.Flags, fmt.Sprintf("%s=%v", f.Name, f.Value))
+	}
+	if req.Target == "" {
+		return
+	}
+	l, err := label.Parse(req.Target)
+	if err != nil {
+		res.RunErr = "parse: " + err.Error()
+		return
+	}
+	if err := lv.proj.Run(l, &dawn.RunOptions{Always: req.Always, DryRun: req.Dry}); err != nil {
+		res.RunErr = err.Error()
+		settle(lv.rec)
+	}
+	return
 }
